@@ -188,6 +188,10 @@ def run(ck):
     from ..report import RuleView
     from . import c17
     c17.run(RuleView(ck, {"C17.2": "C11.8"}))
+    ck.clause("C11.9", "candidates of both strands are ordered by the strand-symmetric peak score, never by enumeration order "
+                       "(forward before reverse): an exact confidence tie is not decided by the strand (as C16.1 / C05.4)")
+    from .c05 import seeds
+    seeds(ck, "C11.9")
     # ---- C11.4
     gs = p.find_method("OpticalMap", "getSequence")
     rs = V("reverseStrand")
